@@ -446,7 +446,25 @@ fn run_session(job: &J) -> J {
                 // the interpreter that panicked is not trusted any further: the property is
                 // already violated; later steps on it would only report noise.  (Stateless
                 // batches - numeric cases - ask to go on.)
-                if !job.get("continue_after_panic").and_then(|x| x.as_bool()).unwrap_or(false) {
+                if job.get("renew_after_panic").and_then(|x| x.as_bool()).unwrap_or(false) {
+                    // robustness batches (C07): the panic is recorded; later inputs get a fresh interpreter
+                    let i = step.get("i").and_then(|x| x.as_u64()).unwrap_or(0) as usize;
+                    let fresh = catch_unwind(AssertUnwindSafe(|| {
+                        let it = It::new_with_stdlib();
+                        define_natives(&it).unwrap();
+                        it
+                    }));
+                    match fresh {
+                        Ok(it) => {
+                            // the old interpreter is leaked on purpose: dropping a half-updated structure may panic again
+                            if let Some(old) = s.its[i].take() {
+                                std::mem::forget(old);
+                            }
+                            s.its[i] = Some(it)
+                        }
+                        Err(_) => break,
+                    }
+                } else if !job.get("continue_after_panic").and_then(|x| x.as_bool()).unwrap_or(false) {
                     break;
                 }
             }
@@ -544,11 +562,13 @@ fn main() {
     }
     let mut threads = 8usize;
     let mut stack_mb = 256usize;
+    let mut job_timeout_ms = 0u64; // 0 = no watchdog
     let mut k = 4;
     while k + 1 < args.len() {
         match args[k].as_str() {
             "--threads" => threads = args[k + 1].parse().unwrap_or(8),
             "--stack-mb" => stack_mb = args[k + 1].parse().unwrap_or(256),
+            "--job-timeout-ms" => job_timeout_ms = args[k + 1].parse().unwrap_or(0),
             _ => {}
         }
         k += 2;
@@ -582,11 +602,38 @@ fn main() {
     let out = std::sync::Arc::new(std::sync::Mutex::new(BufWriter::new(
         std::fs::File::create(&args[3]).expect("create out"),
     )));
+    // watchdog: a job that runs longer than the limit (non-termination is outside every claim) is
+    // recorded as {"k":"timeout"} and the process exits with status 3; the orchestrator re-runs the
+    // jobs that were in flight on the other threads.
+    let running: std::sync::Arc<std::sync::Mutex<Vec<Option<(usize, std::time::Instant)>>>> =
+        std::sync::Arc::new(std::sync::Mutex::new(vec![None; threads.max(1)]));
+    if job_timeout_ms > 0 {
+        let running = running.clone();
+        let out = out.clone();
+        let jobs = jobs.clone();
+        std::thread::spawn(move || loop {
+            std::thread::sleep(std::time::Duration::from_millis(50));
+            let r = running.lock().unwrap();
+            for slot in r.iter() {
+                if let Some((idx, t0)) = slot {
+                    if t0.elapsed().as_millis() as u64 > job_timeout_ms {
+                        let mut w = out.lock().unwrap();
+                        let line = json!({"idx": idx, "id": jobs[*idx]["id"], "k": "timeout", "timedout": true,
+                                          "results": [{"k": "timeout"}]});
+                        writeln!(w, "{}", line).unwrap();
+                        w.flush().unwrap();
+                        std::process::exit(3);
+                    }
+                }
+            }
+        });
+    }
     let mut hs = Vec::new();
-    for _ in 0..threads.max(1) {
+    for tid in 0..threads.max(1) {
         let jobs = jobs.clone();
         let next = next.clone();
         let out = out.clone();
+        let running = running.clone();
         hs.push(
             std::thread::Builder::new()
                 .stack_size(stack_mb << 20)
@@ -595,7 +642,9 @@ fn main() {
                     if i >= jobs.len() {
                         break;
                     }
+                    running.lock().unwrap()[tid] = Some((i, std::time::Instant::now()));
                     let mut r = run_job(&jobs[i]);
+                    running.lock().unwrap()[tid] = None;
                     r["idx"] = json!(i);
                     let mut w = out.lock().unwrap();
                     writeln!(w, "{}", r).unwrap();
